@@ -101,6 +101,17 @@ func (r *soupRunner) runAll(c *soupCase, from int, tr *soupTrace) {
 // clone rebuilds a brand-new CPU and memory from copies of the public state.
 func (r *soupRunner) cloneInto(dst *soupRunner, copyHALT bool) {
 	r.b.CopyTo(dst.b)
+	if copyHALT && r.b.Accesses()&1 == 1 {
+		// third way of rebuilding: a plain struct copy of the CPU value, given its own memory and ports
+		dst.cpu = r.cpu
+		dst.cpu.Memory, dst.cpu.IO = dst.b, dst.b
+		if r.cpu.Interrupt != nil {
+			it := *r.cpu.Interrupt
+			it.Data = append([]uint8(nil), r.cpu.Interrupt.Data...)
+			dst.cpu.Interrupt = &it
+		}
+		return
+	}
 	dst.cpu = z80.CPU{Memory: dst.b, IO: dst.b}
 	dst.cpu.States = r.cpu.States // copy of States
 	if copyHALT {
